@@ -39,14 +39,26 @@ func isNonce(x []byte) bool {
 }
 
 // wfTx mirrors Model/Tx.v wf_tx: the values the wire format can represent.
-func wfTx(tx *transaction.Transaction) bool {
+func wfTx(tx *transaction.Transaction) bool { return wfTxOpt(tx, false) }
+
+// wfTxHash is the domain of the hash properties (C04): additionally the values the API can hold and the
+// serializer writes in full although the parser would not give them back — an issuance on an input with the
+// null index 0xffffffff (the index word has every flag bit set already; the four issuance fields are written).
+func wfTxHash(tx *transaction.Transaction) bool { return wfTxOpt(tx, true) }
+
+func wfTxOpt(tx *transaction.Transaction, nullIndexIssuance bool) bool {
 	for _, in := range tx.Inputs {
 		if len(in.Hash) != 32 {
 			return false
 		}
 		if in.Index == 0xffffffff {
-			if in.IsPegin || in.Issuance != nil {
+			if in.IsPegin || (in.Issuance != nil && !nullIndexIssuance) {
 				return false
+			}
+			if iss := in.Issuance; iss != nil {
+				if len(iss.AssetBlindingNonce) != 32 || len(iss.AssetEntropy) != 32 || !isValue(iss.AssetAmount) || !isValue(iss.TokenAmount) {
+					return false
+				}
 			}
 		} else {
 			if in.Index > 0x3fffffff {
